@@ -56,8 +56,30 @@ func c07(c *Ctx) {
 			}
 			return true
 		})
-		c.Check(idx != nil, "R1", "aggregate|(*histValues).measure|idx ← lower-bound search of value in bounds", at(ax.M, fn.Pos()), "first bound ≥ value (upper-inclusive buckets)",
-			"the bucket index is not the lower-bound search result over bounds: values land in the wrong bucket (e.g. boundary values counted in the next bucket)")
+		// the index has no other definition (a conditional fast path beside the search changes the bucket of boundary values)
+		if idx != nil {
+			ndef := 0
+			inspectNoLit(fn.Body(), func(n ast.Node) bool {
+				switch s := n.(type) {
+				case *ast.AssignStmt:
+					for _, l := range s.Lhs {
+						if sameVar(info, l, idx) {
+							ndef++
+						}
+					}
+				case *ast.IncDecStmt:
+					if sameVar(info, s.X, idx) {
+						ndef++
+					}
+				}
+				return true
+			})
+			if ndef != 1 {
+				idx = nil
+			}
+		}
+		c.Check(idx != nil, "R1", "aggregate|(*histValues).measure|idx ← lower-bound search of value in bounds", at(ax.M, fn.Pos()), "first bound ≥ value (upper-inclusive buckets), the only definition of the index",
+			"the bucket index is not (only) the lower-bound search result over bounds: values land in the wrong bucket (e.g. boundary values counted in the next bucket)")
 		binCalls := g.Match(callToDecl(info, bin))
 		okBin := len(binCalls) == 1 && idx != nil
 		if okBin {
